@@ -39,6 +39,12 @@ def handleWire (st : St) : List String → Option (St × String)
     let (v, r) ← parseVal S rest
     if !r.isEmpty then none else
     some (st, showR toHex (dumpVal S v))
+  -- is the value inside the domain of the C01 theorem (`MsgOk`, decided by `msgOkB`: BpProofs/OkComplete.lean)?
+  | "MSGOK" :: sid :: rest => do
+    let S ← st.schema sid
+    let (v, r) ← parseVal S rest
+    if !r.isEmpty then none else
+    some (st, if msgOkB S v then "1" else "0")
   | "LEN" :: sid :: rest => do
     let S ← st.schema sid
     let (v, r) ← parseVal S rest
